@@ -251,6 +251,35 @@ theorem step_symlink {dest : Path} {a : FS} (hinv : Inv dest a) {D : Path} {c : 
       simp; omega
   · intro k hk; exact hds _ (hinv.dirs k hk)
 
+/-- P5a: `unlink` of a non-directory at an inside location -/
+theorem step_unlink {dest : Path} {a : FS} (hinv : Inv dest a) {loc : Path}
+    (hin : Inside dest loc) (hnd : ¬ IsDir a loc) :
+    MStep dest a (a.delName loc) ∧ Inv dest (a.delName loc) := by
+  have hds : ∀ p, IsDir a p → IsDir (a.delName loc) p := by
+    intro p ⟨m, hm⟩
+    have hp : p ≠ loc := fun e => hnd (e ▸ ⟨m, hm⟩)
+    exact ⟨m, by simp [hp, hm]⟩
+  refine ⟨⟨?_, fun _ _ _ => rfl, ?_, Nat.le_refl _, hds⟩, ⟨?_, ?_, ?_⟩⟩
+  · intro q hq
+    have : q ≠ loc := fun e => hq (e ▸ hin)
+    simp [this]
+  · intro p j hp hl
+    by_cases hpl : p = loc
+    · simp [hpl] at hl
+    · simp only [look_delName, hpl, if_false] at hl
+      exact Or.inr ⟨p, hp, hl⟩
+  · intro p x e hl
+    by_cases hpl : p ++ [x] = loc
+    · simp [hpl] at hl
+    · simp only [look_delName, hpl, if_false] at hl
+      exact hds p (hinv.wf p x e hl)
+  · intro p j hl
+    by_cases hpl : p = loc
+    · simp [hpl] at hl
+    · simp only [look_delName, hpl, if_false] at hl
+      exact hinv.fresh p j hl
+  · intro k hk; exact hds _ (hinv.dirs k hk)
+
 /-- P6: a second inside name for an inode that an inside name refers to and that is no link -/
 theorem step_link {dest : Path} {a : FS} (hinv : Inv dest a) {D s : Path} {c : Name} {i : Nat}
     (hin : Inside dest (D ++ [c])) (hD : IsDir a D) (hmiss : a.look (D ++ [c]) = none)
